@@ -30,6 +30,10 @@ def hot_units(cfg):
     return [0, g - 1, g, g + 1, 2 * g, 128 * g - 1, 128 * g, 129 * g]
 
 
+def spray(cfg):
+    return (cfg["gtes"], 160) if cfg["kind"] != "flat" else (0, 0)
+
+
 def below_layers(cfg):
     return [], None
 
